@@ -397,6 +397,127 @@ def h_setup(H):
         S.explore(body)
 
 
+def replay_epilogue(vals, oid):
+    """native: a first run publishing its quality files in another folder, then an appending run with the same settings: every quality file covers both runs"""
+    import pyfftw  # noqa
+    import joblib
+    from pathlib import Path
+    bad = []
+    d = tempfile.mkdtemp(prefix="c06_")
+    try:
+        rng = np.random.default_rng(5)
+        d1, d2, od, qc = (os.path.join(d, x) for x in ("a", "b", "out", "qc"))
+        for x in (d1, d2, od, qc):
+            os.makedirs(x)
+        ap1, x1 = _mk_rec(d1, 9000, rng)
+        ap2, x2 = _mk_rec(d2, 7000, rng)
+        out = os.path.join(od, "out.bin")
+        with joblib.parallel_backend("threading"):
+            V.decompress_destripe_cbin(ap1, output_file=out, nbatch=8192, nprocesses=1, reject_channels=False, output_qc_path=Path(qc))
+            V.decompress_destripe_cbin(ap2, output_file=out, nbatch=8192, nprocesses=1, reject_channels=False, output_qc_path=Path(qc), append=True)
+        sat = np.load(os.path.join(qc, "_iblqc_ephysSaturation.samples.npy"))
+        rms = np.load(os.path.join(qc, "_iblqc_ephysTimeRmsAP.rms.npy"))
+        nsam = os.path.getsize(out) // (385 * 2)
+        first = bool(sat[:9000].any()) if sat.shape[0] >= 9000 else False
+        if nsam != 16000 or sat.shape[0] != 16000 or rms.shape[0] != 4 or not first or not sat[9000:].any():
+            bad.append({"append_after_a_run_with_output_qc_path": {"output_samples": int(nsam), "saturation_entries": int(sat.shape[0]), "rms_rows": int(rms.shape[0]),
+                                                                  "saturated_samples_of_the_first_run_flagged": first}})
+    finally:
+        shutil.rmtree(d, ignore_errors=True)
+    return {"failed": bool(bad), "cases": bad}
+
+
+@harness(PROPERTY, "epilogue_quality_files", functions=["ibldsp.voltage:decompress_destripe_cbin (the statements after the workers have finished)"], replay=replay_epilogue,
+         clause="append mode concatenates runs; the saturation and RMS quality files have one entry per sample and per batch: what the run publishes at its end - RMS rows (batches x channels), "
+                "timestamps and the per-sample saturation vector under the quality folder - and what it leaves next to the output for the next appending run (the per-sample saturation file is neither "
+                "removed, renamed nor truncated)")
+def h_epilogue(H):
+    for given in (False, True):
+        S = H.session("epilogue.qc_path_" + ("given" if given else "default"))
+
+        def body(it, given=given):
+            node, inner, filename, consts = _nested()
+            it.session.note_function(FN)
+            fs_ = fsmodel.GhostFS()
+            it.session.ghost_fs = fs_
+            mk = lambda nm, *dirs: fsmodel.GhostPath(fs_, dirs or ("out",), nm)      # noqa
+            paths = dict(output_file=mk("destriped.bin"), ap_rms_file=mk("ap_rms.bin"), ap_time_file=mk("ap_time.bin"), file_saturation=mk("_iblqc_ephysSaturation.samples.npy"))
+            for p_ in paths.values():
+                fs_.exists[p_.key] = True
+            qcdir = fsmodel.GhostPath(fs_, (), "qc")
+            fs_.exists[qcdir.key] = True
+            ncv, nt, nsat = z3.Ints("ncv n_batches n_entries")
+            for v_ in (ncv, nt, nsat):
+                it.ctx.assume(v_ >= 1)
+            saved, loaded, bufs = [], [], []
+            sat_arr = A.fresh_array("saturation_file", "bool", (nsat,))
+
+            def frombuffer(it_, a, k):
+                # items of the timestamp file = number of batches, items of the RMS file = batches x channels (proved per batch: one row / one timestamp each)
+                bufs.append(a[0])
+                which = a[0][1] if isinstance(a[0], tuple) and a[0][0] == "BYTES" else None
+                if which == paths["ap_rms_file"].key:
+                    return A.fresh_array("rms_bytes", "float32", (nt * ncv,))
+                if which == paths["ap_time_file"].key:
+                    return A.fresh_array("time_bytes", "float32", (nt,))
+                raise I.Unsupported("np.frombuffer of something else than the content of the RMS / timestamp place holders")
+
+            def load(it_, a, k):
+                loaded.append(a[0])
+                return sat_arr
+
+            def move(it_, a, k):
+                a[0].rename(a[1] if not (isinstance(a[1], fsmodel.GhostPath) and a[1].key == qcdir.key) else a[1].joinpath(a[0].name))
+                return a[1]
+
+            def copy(it_, a, k):
+                dst = a[1] if not (isinstance(a[1], fsmodel.GhostPath) and a[1].key == qcdir.key) else a[1].joinpath(a[0].name)
+                fs_.log.append(("copy", a[0].key, dst.key))
+                fs_.exists[dst.key] = True
+                saved.append((dst, ("copy_of", a[0].key)))
+                return dst
+            it.session.contracts[np.save] = lambda it_, a, k: saved.append((a[0], a[1]))
+            it.session.contracts[np.frombuffer] = frombuffer
+            it.session.contracts[np.load] = load
+            it.session.contracts[shutil.move] = move
+            for f_ in (shutil.copy, shutil.copy2, shutil.copyfile):
+                it.session.contracts[f_] = copy
+            env = I.Env(None, FN.__globals__, qualname="decompress_destripe_cbin", filename=filename)
+            env.vars.update(dict(compute_rms=True, append=False, ncv=SV(ncv), output_qc_path=(qcdir if given else None), **paths))
+            it.ctx.func = env.qualname
+            src = [ast.unparse(st) for st in node.body]
+            i_par = [i for i, t in enumerate(src) if "Parallel(" in t]
+            if len(i_par) != 1:
+                raise I.Unsupported("cannot identify the statement that runs the workers in decompress_destripe_cbin()")
+            for st in node.body[i_par[0] + 1:]:
+                if isinstance(st, ast.Expr) and "sr.close" in ast.unparse(st):
+                    continue
+                it.exec_stmt(st, env)
+            tag = "given" if given else "default"
+            want_dir = qcdir.key if given else paths["output_file"].parent.key
+            destructive = [op for op in fs_.log if op[0] in ("unlink", "rename", "open_w") and op[1] == paths["file_saturation"].key]
+            it.ctx.oblige(f"epilogue.saturation_file_stays_next_to_the_output.{tag}", z3.BoolVal(not destructive and fs_.ex(paths["file_saturation"].key) is True), "post",
+                          "append mode concatenates runs: the per-sample saturation file the next appending run extends is still next to the output, with its entries")
+            by_name = {}
+            for pth, arr in saved:
+                if isinstance(pth, fsmodel.GhostPath):
+                    by_name.setdefault(pth.parent.key, []).append((pth.name, arr))
+            here = by_name.get(want_dir, [])
+            # by default the per-sample file is already where it is published: saving it again onto itself or leaving it alone are the same thing
+            in_place = (not given) and not destructive and not any(nm == paths["file_saturation"].name for nm, _ in here)
+            it.ctx.oblige(f"epilogue.published_under_the_quality_folder.{tag}", z3.BoolVal(len(here) + (1 if in_place else 0) == 3 and len(saved) == len(here)), "post",
+                          "the three quality files end up in the requested folder (next to the output by default) and nowhere else")
+            sat_ok = [1 for nm, arr in here if nm == paths["file_saturation"].name and (arr is sat_arr or arr == ("copy_of", paths["file_saturation"].key))] + ([1] if in_place else [])
+            it.ctx.oblige(f"epilogue.saturation_published_is_the_file_the_batches_wrote.{tag}", z3.BoolVal(len(sat_ok) == 1 and (all(getattr(l_, "key", None) == paths["file_saturation"].key for l_ in loaded))), "post",
+                          "one entry per sample: the published saturation vector is the content of the file the batches wrote their flags to, under the same name")
+            two_d = [arr for nm, arr in here if isinstance(arr, SArr) and arr.ndim == 2]
+            one_d = [arr for nm, arr in here if isinstance(arr, SArr) and arr.ndim == 1 and arr is not sat_arr]
+            ok = len(two_d) == 1 and len(one_d) == 1
+            it.ctx.oblige(f"epilogue.rms_one_row_per_batch.{tag}", z3.And(A.T(two_d[0].shape[0]) == nt, A.T(two_d[0].shape[1]) == ncv, A.T(one_d[0].shape[0]) == nt) if ok else z3.BoolVal(False), "post",
+                          "RMS file: one row per batch and one column per channel; timestamps: one per batch")
+        S.explore(body)
+
+
 def replay_batch(vals, oid):
     """native: a 20000-sample recording destriped to disk by 1 and by 3 workers (8192-sample batches), saturated stretches where batches are tapered"""
     bad = native_destripe(np.random.default_rng(7), 20000, 8192, (1, 3), False)
